@@ -180,7 +180,9 @@ def run(ctx):
     n_tab = ctx.budget(14, 120)
     for i in range(n_tab):
         _tab_config(ctx, i)
+        ctx.gc()
     names = list(_CLASSIC)
     n_classic = ctx.budget(5, 40)
     for i in range(n_classic):
         _classic_config(ctx, names[i % len(names)], i)
+        ctx.gc(4)
